@@ -176,9 +176,11 @@ theorem only_caller_pays (chk : DisabledCheck) (tbl : List MInfo) (hok : tableOk
             · exact hp
             · simp [Call.name] at hn
           simp only [effect, hp] at h
-          injection h with h; subst h
-          refine ⟨?_, Nat.le_refl _, fun e he hs => ⟨e, he, rfl, hs, Nat.le_refl _⟩, .inl ?_, fun _ => .inl rfl⟩ <;>
-            simp [claim, upd, ha]
+          split at h
+          · cases h
+          · injection h with h; subst h
+            refine ⟨?_, Nat.le_refl _, fun e he hs => ⟨e, he, rfl, hs, Nat.le_refl _⟩, .inl ?_, fun _ => .inl rfl⟩ <;>
+              simp [claim, upd, ha]
         | approve sp s =>
           have hp : resolve i.payer env (.approve sp s) = env.caller := by
             rcases hpay with hp | ⟨_, hn, _⟩
@@ -492,8 +494,10 @@ theorem specEffect_allow (c : Addr) (call : Call) (w w' : World) (h : specEffect
     simp only [specEffect, effect] at h; cases h
     exact ⟨fun _ _ he => (nomatch he), fun _ _ _ he => (nomatch he), fun _ _ => rfl⟩
   | withdraw =>
-    simp only [specEffect, effect] at h; cases h
-    exact ⟨fun _ _ he => (nomatch he), fun _ _ _ he => (nomatch he), fun _ _ => rfl⟩
+    simp only [specEffect, effect] at h
+    split at h
+    · cases h
+    · cases h; exact ⟨fun _ _ he => (nomatch he), fun _ _ _ he => (nomatch he), fun _ _ => rfl⟩
   | delegate x =>
     simp only [specEffect, effect] at h
     split at h
